@@ -14,6 +14,9 @@ use rand_core::SeedableRng;
 use serde::{Deserialize, Serialize};
 use std::collections::BTreeMap;
 
+/// number of symbolic shifts prepared per kind for `Dev::AllConsts` / `Dev::AllCoeffs` (more than any case draws)
+pub const N_ALL_DEV: usize = 24;
+
 #[derive(Clone, Debug, Serialize, Deserialize, PartialEq)]
 pub enum Dev {
     ReplaceV(usize),
@@ -25,6 +28,9 @@ pub enum Dev {
     /// shift the k-th coefficient draw ("c") / carried constant ("const") on the verifier side
     Coeff(usize),
     Const(usize),
+    /// every carried constant / every coefficient on the verifier side gets its own symbolic shift
+    AllConsts,
+    AllCoeffs,
     BlindBase,
     ValueBase,
 }
@@ -63,7 +69,7 @@ pub fn apply_dev<G: AffineRepr>(case: &C05Case, shr: &std::rc::Rc<std::cell::Ref
             sh.verifier_commitments[*j] = nv;
         }
         Dev::SwapV(i, j) => sh.verifier_commitments.swap(*i, *j),
-        Dev::InShape => {}
+        Dev::InShape | Dev::AllConsts | Dev::AllCoeffs => {}
         Dev::Coeff(k) => {
             sh.dev_draw = Some(("c".into(), *k));
             sh.dev_delta = Some(delta);
@@ -128,10 +134,11 @@ where
         honest.verifier_pre_msg = None;
         let strip = |ops: &Vec<Op>| -> Vec<Op> {
             ops.iter()
-                .filter(|o| !matches!(o, Op::CommitExtraV))
+                .filter(|o| !matches!(o, Op::CommitExtraV | Op::CommitExtraDupV))
                 .map(|o| match o {
                     Op::MsgDev(a, _) => Op::MsgDev(a.clone(), a.clone()),
                     Op::CommitSkipV => Op::Commit,
+                    Op::CommitDupSkipV => Op::CommitDup,
                     Op::MsgPointV => Op::MsgPointVHonest,
                     x => x.clone(),
                 })
@@ -151,6 +158,11 @@ where
     let mut dv = SymVals::<C::ScalarField>::new(seed ^ 0xde);
     let delta = dv.fresh("delta");
     let (vpc, fresh) = apply_dev(case, &shr, &pc, &mut rng, delta, &torsion);
+    if matches!(case.dev, Dev::AllConsts | Dev::AllCoeffs) {
+        let (kind, name) = if case.dev == Dev::AllConsts { ("const", "dconst") } else { ("c", "dcoef") };
+        let ds: Vec<SymF<C::ScalarField>> = (0..N_ALL_DEV).map(|_| dv.fresh(name)).collect();
+        shr.borrow_mut().dev_all.insert(kind.to_string(), ds);
+    }
     if let Some(D) = fresh {
         D.name_basis("Dev");
     }
@@ -172,6 +184,34 @@ where
     job.params = serde_json::json!({"fresh_challenges_on_verifier_side": fresh_labels, "deviation": case.dev});
     if case.changes_transcript {
         job.check("the deviation changes every challenge from x on (it is absorbed before any squeeze)", x_fresh, format!("fresh: {:?}", fresh_labels));
+    }
+    if matches!(case.dev, Dev::AllConsts | Dev::AllCoeffs) {
+        // no oracle: search for shifts under which the committed values / wires violate some shifted constraint
+        // and the combined check still vanishes for every value of the challenges
+        match &residual {
+            Some(res_lin) => {
+                let sh = shr.borrow();
+                let lit0 = arena::with(|a| a.lit0);
+                let viol: Vec<u32> = sh.con_vals.iter().map(|v| v.tid()).filter(|t| *t != lit0).collect();
+                job.check("the shifted statement differs from the proven one on the shadow values", sh.con_vals.iter().any(|v| !v.v.is_zero()), String::new());
+                match rejection_query_group("accepted_deviation_search", "", res_lin, &viol, "no assignment of shifts to the verifier's constants (coefficients) under which some shifted constraint is violated by the committed values and wires makes the combined check vanish for all challenge values: compensating deviations in different constraints cannot cancel") {
+                    Ok(mut g) => {
+                        g.only_if_failed = None;
+                        job.groups.push(g);
+                    }
+                    Err(e) => job.inconclusive.push(format!("late-variable expansion failed: {}", e)),
+                }
+            }
+            None => {
+                if res.is_err() {
+                    job.inconclusive.push(format!("no combined-check event (verdict {:?})", res));
+                }
+            }
+        }
+        job.path_conditions = describe_events(&evs[..evs.len().min(6)]);
+        job.stats = stats();
+        job.replay = serde_json::json!({"kind": "c05", "case": case, "seed": seed});
+        return job;
     }
     match (residual, vch) {
         (Some(res_lin), Ok(vc)) => {
@@ -346,6 +386,7 @@ pub fn c05_native<G: AffineRepr + 'static>(case: &C05Case, seed: u64, model: std
     let pad = shape.padded();
     let pc = PedersenGens::<G>::default();
     let bp = BulletproofGens::<G>::new(pad, 1);
+    let model2 = model.clone();
     let delta = model.get("delta0").and_then(|s| parse_rational::<G::ScalarField>(s)).filter(|d| !d.is_zero()).unwrap_or(G::ScalarField::from(seed + 3));
     let shr = new_shared::<G>(shape, &Default::default(), Box::new(PlainVals::<G::ScalarField>::new(model, seed)));
     {
@@ -367,10 +408,11 @@ pub fn c05_native<G: AffineRepr + 'static>(case: &C05Case, seed: u64, model: std
         honest.verifier_pre_msg = None;
         let strip = |ops: &Vec<Op>| -> Vec<Op> {
             ops.iter()
-                .filter(|o| !matches!(o, Op::CommitExtraV))
+                .filter(|o| !matches!(o, Op::CommitExtraV | Op::CommitExtraDupV))
                 .map(|o| match o {
                     Op::MsgDev(a, _) => Op::MsgDev(a.clone(), a.clone()),
                     Op::CommitSkipV => Op::Commit,
+                    Op::CommitDupSkipV => Op::CommitDup,
                     Op::MsgPointV => Op::MsgPointVHonest,
                     x => x.clone(),
                 })
@@ -387,6 +429,18 @@ pub fn c05_native<G: AffineRepr + 'static>(case: &C05Case, seed: u64, model: std
     shr.borrow_mut().verifier_commitments = honest_commitments;
     let mut rng = rand_chacha::ChaChaRng::seed_from_u64(seed ^ 0xc05);
     let (vpc, _) = apply_dev(case, &shr, &pc, &mut rng, delta, &torsion);
+    if matches!(case.dev, Dev::AllConsts | Dev::AllCoeffs) {
+        // shifts from the solver's model where it names them, random otherwise
+        let (kind, name) = if case.dev == Dev::AllConsts { ("const", "dconst") } else { ("c", "dcoef") };
+        let mut dvals = PlainVals::<G::ScalarField>::new(model2.clone(), seed ^ 0xde);
+        let ds: Vec<G::ScalarField> = (0..N_ALL_DEV).map(|_| dvals.fresh(name)).collect();
+        shr.borrow_mut().dev_all.insert(kind.to_string(), ds);
+        let mut vt = new_verifier_transcript(shape);
+        let res = build_verifier(shape, &shr, &mut vt).verify(&proof, &vpc, &bp);
+        let unsatisfied = shr.borrow().con_vals.iter().any(|v| !v.is_zero());
+        out.push((format!("shifted statement ({:?}) that the committed values do not satisfy is rejected (unsatisfied: {}, verdict ok: {})", case.dev, unsatisfied, res.is_ok()), !(unsatisfied && res.is_ok())));
+        return out;
+    }
     let mut vt = new_verifier_transcript(shape);
     let res = build_verifier(shape, &shr, &mut vt).verify(&proof, &vpc, &bp);
     out.push((format!("deviating statement ({:?}) is rejected", case.dev), res.is_err()));
@@ -426,6 +480,9 @@ pub fn c05_cases(thorough: bool) -> Vec<C05Case> {
         mk("reordered_with_identity_commitment_equal_weights", Shape::new("sum", &[Commit, Commit, CommitZero, AllocMul, ConSum], &[]), Dev::SwapV(1, 2), true),
         mk("extra_commitment", Shape::new("extra", &[Commit, AllocMul, Con, CommitExtraV], &[]), Dev::InShape, true),
         mk("missing_commitment", Shape::new("missing", &[Commit, AllocMul, Con, CommitSkipV], &[]), Dev::InShape, true),
+        // an extra / a missing commitment that EQUALS one already in the list (same value, same blinding factor)
+        mk("extra_duplicate_commitment", Shape::new("extra_dup", &[Commit, AllocMul, Con, CommitExtraDupV], &[]), Dev::InShape, true),
+        mk("missing_duplicate_commitment", Shape::new("missing_dup", &[Commit, AllocMul, Con, CommitDupSkipV], &[]), Dev::InShape, true),
         mk("application_data_framed_like_a_commitment_vs_extra_commitment", Shape::new("msgpointv", &[Commit, AllocMul, Con, MsgPointV], &[]), Dev::InShape, true),
         mk("commitment_plus_small_order_point", base.clone(), Dev::ReplaceVTorsion(0), true),
         mk("different_label", { let mut s = base.clone(); s.verifier_label = Some("other".into()); s }, Dev::InShape, true),
@@ -441,6 +498,9 @@ pub fn c05_cases(thorough: bool) -> Vec<C05Case> {
         // nothing of that kind), so the deviation is addressed to that closure whatever else runs
         mk("changed_coefficient_first_of_two_randomized_gadgets", Shape::new("two_closures", &[Commit, Commit], &[&[Chal, ConCommitted], &[Chal, ConConst]]), Dev::Coeff(2), false),
         mk("changed_constant_first_of_two_randomized_gadgets_with_gates", Shape::new("two_closures_gates", &[Commit, AllocMul], &[&[Chal, Con], &[Chal, AllocMul]]), Dev::Const(0), false),
+        mk("all_constants_shifted_two_phase", Shape::new("consts2", &[Commit, Commit, AllocMul, Con, ConCommitted], &[&[Chal, Con, ConCommitted]]), Dev::AllConsts, false),
+        mk("all_constants_shifted_two_closures", Shape::new("consts3", &[Commit, ConCommitted], &[&[Chal, ConCommitted], &[Chal, ConCommitted, ConCommitted]]), Dev::AllConsts, false),
+        mk("all_coefficients_shifted_two_phase", Shape::new("coefs2", &[Commit, Commit, ConCommitted], &[&[Chal, ConCommitted]]), Dev::AllCoeffs, false),
         mk("different_blinding_base", base.clone(), Dev::BlindBase, false),
         mk("different_blinding_base_zero_gates", zero.clone(), Dev::BlindBase, false),
         mk("different_value_base_one_gate", base.clone(), Dev::ValueBase, false),
